@@ -181,15 +181,26 @@ def St.recheckFromCache (s : St) (p : Path) (a : Addr) (m : Method) : St × Out 
     | some o, .hardlink => (s.setWs p (some (.file o.b false o.stamp (some a))), .ok)
     | some o, _ => ((s.setWs p (some (.file o.b true s.clock none))).tick, .ok)
 
-/-- `move_to_cache`: mkdir, directory writable, `rename`, file read-only, directory read-only. -/
+/-- A symbolic link is not content: `move_to_cache` carries the bytes it points to (repair F31).  In the model the
+    link is first replaced by an independent file with those bytes (`fs::copy(path, temp)` follows the link; the new
+    object gets a fresh modification time); a dangling link stays (the copy fails, nothing changed). -/
+def St.deref (s : St) (p : Path) : St :=
+  match s.ws p with
+  | some (.sym a') =>
+    match s.cache a' with
+    | some o => (s.setWs p (some (.file o.b true s.clock none))).tick
+    | none => s
+  | _ => s
+
+/-- `move_to_cache`: mkdir, directory writable, `rename` (for a link: copy of the bytes it points to, then
+    unlink), file read-only, directory read-only. -/
 def St.moveToCache (s : St) (p : Path) (a : Addr) : St × Out :=
+  let s := s.deref p
   match s.ws p with
   | some (.file b _ st _) =>
     let s := (s.setWs p none).setCache a (some ⟨b, true, st⟩)
     ({ s with dirRo := upd s.dirRo a.d true }, .ok)
-  | some (.sym _) =>
-    -- K10: the symlink itself is renamed onto the address; the object is destroyed
-    (((s.setWs p none).setCache a none), .panic)
+  | some (.sym _) => (s, .panic)                        -- dangling link: `fs::copy` fails, nothing changed
   | none => (s, .panic)
 
 /-- unlinking a cache object (`XvcCachePath::remove`; on unix the file's mode is left alone, a `chmod`
@@ -200,8 +211,9 @@ def St.detach (s : St) (a : Addr) : St :=
       | some (.file b w st (some a')) => if a' = a then some (.file b w st none) else some (.file b w st (some a'))
       | e => e }
 
-/-- the closure `copy_path_to_cache_and_recheck` of `carry_in` for one entity -/
-def St.carryOne (s : St) (p : Path) (a : Addr) (m : Method) (force : Bool) : St × Out :=
+/-- the closure `copy_path_to_cache_and_recheck` of `carry_in` for one entity, when the path is not a link to the
+    object at the address itself -/
+def St.carryOneMove (s : St) (p : Path) (a : Addr) (m : Method) (force : Bool) : St × Out :=
   let (s, o1) :=
     if (s.cache a).isSome then
       if force then
@@ -214,6 +226,18 @@ def St.carryOne (s : St) (p : Path) (a : Addr) (m : Method) (force : Bool) : St 
     let s := if (s.readThrough p).isSome then s.setWs p none else s   -- `if target_path.exists() remove_file`
     s.recheckFromCache p a m
   | o => (s, o)
+
+/-- the path is a symbolic link to the cached copy at `a` itself (`links_to_cached_copy`, repair F31) -/
+def St.linksTo (s : St) (p : Path) (a : Addr) : Bool :=
+  (match s.ws p with | some (.sym a') => decide (a' = a) | _ => false) && (s.cache a).isSome
+
+/-- the closure `copy_path_to_cache_and_recheck` of `carry_in` for one entity: a link to the cached copy itself is
+    only re-materialised, also with `--force` (there is nothing to replace; removing the object would remove the
+    content) -/
+def St.carryOne (s : St) (p : Path) (a : Addr) (m : Method) (force : Bool) : St × Out :=
+  if s.linksTo p a then
+    (s.setWs p none).recheckFromCache p a m
+  else s.carryOneMove p a m force
 
 /-! ## `track` -/
 
